@@ -118,6 +118,11 @@ def runner(rep, tier, seed, replay):
         line, b, a = place(t, stable_hash(t))
         jobs.append({"entry": "c", "text": line, "timeout": 6, "want_files": False})
         meta.append(("range", "limits", line, b, a, words, {"t": t, "feat": {"limits": True}}, False, None))
+    # ---- quoted braces in the value of an assignment word (the tokenizer keeps such a word's quotes in its text): quoted text
+    for k, (pre_cmd, val) in enumerate((("A='{a,b}'", "{a,b}"), ('A="x{1..3}y"', "x{1..3}y"), ("export A='{a,b}{c,d}'", "{a,b}{c,d}"), ("A='p{1..2}' B=\"{x,y}\"", "p{1..2}"))):
+        line = '%s ; vpa Q%d "$A"' % (pre_cmd, k)
+        jobs.append({"entry": "c", "text": line, "timeout": 6, "want_files": False})
+        meta.append(("qassign", "quoted-assignment", line, ["Q%d" % k], [], [val], {"t": pre_cmd, "feat": {"quoted_assignment": True}}, False, None))
     # ---- tilde (fixed table; HOME is the scratch home)
     for w, kind in [("~", "home"), ("~/a", "home-slash"), ("a~", "literal"), ("'~'", "quoted"), ('"~/x"', "quoted"), ("x/~", "literal"), ("~a", "other-user")]:
         line = "vpa L %s R" % w
